@@ -69,7 +69,8 @@ package storer
 //gvc:  trusted
 //gvc:  params s
 //gvc:  results idx err
-//gvc:  ensures wf: err == nil ==> idx != nil && forall(i, 0, len(idx.Entries), idx.Entries[i] != nil && (idx.Entries[i].Mode != 0o160000 ==> forall(b, !spec_child(keyid(idx.Entries[i].Hash), b))))
+//gvc:  ensures wf: err == nil ==> idx != nil && forall(i, 0, len(idx.Entries), idx.Entries[i] != nil && (idx.Entries[i].Mode != 0o160000 ==> spec_leaf(keyid(idx.Entries[i].Hash))))
+//gvc:  ensures leafdef: forall(k, spec_leaf(k) ==> forall(b, !spec_child(k, b)))
 //gvc:end
 
 // EncodedObjectSize reports ErrObjectNotFound exactly for objects that are
